@@ -39,6 +39,8 @@ ADVERSARIAL = ["a", "ab", "a_b", "aa", "a0", "ba", "abc", "b", "a_", "_a", "ab_"
 # legal identifiers that extend "a" by a character which is no regex word character (a regex word boundary is no dotted
 # component boundary), and a name that sorts after every ASCII name
 ADVERSARIAL += ["a·b", "a\u093f", "\u00fcb"]
+# components that look like file-name parts: 'pkg.a.py' is the module 'py' inside 'pkg.a', not the file of 'pkg.a'
+ADVERSARIAL += ["py", "pyi", "a_py"]
 _TOKEN = re.compile(r"\bc[0-7]\b")
 
 
